@@ -132,6 +132,8 @@ fn build(spec: &str) -> Def {
 
 fn gen_spec(rng: &mut Rng) -> String {
     let nv = 1 + rng.below(4);
+    // one definition in five holds plain data only: all of it allowed to stay uninitialised, or none of it
+    let flavor = rng.below(10);
     let mut s = String::new();
     let mut next_id = 0usize;
     let mut next_name = 0usize;
@@ -163,8 +165,16 @@ fn gen_spec(rng: &mut Rng) -> String {
                 next_name += 1;
                 next_name - 1
             };
-            let ty = rng.below(PALETTE.len());
-            let uninit = PALETTE[ty].1 && rng.chance(50);
+            let mut ty = rng.below(PALETTE.len());
+            if flavor < 2 {
+                const PLAIN: [usize; 7] = [0, 1, 2, 3, 4, 9, 11];
+                ty = PLAIN[rng.below(PLAIN.len())];
+            }
+            let uninit = PALETTE[ty].1 && match flavor {
+                0 => true,
+                1 => false,
+                _ => rng.chance(50),
+            };
             write!(s, "A:{}:{}:{} ", name, ty, uninit as u8).unwrap();
             cur.push((next_id, name));
             next_id += 1;
